@@ -479,6 +479,31 @@ func vfC12Run(dir string, c vfC12Case) (problems []string, detail map[string]any
 				if i+1 < len(addrs) && a+g.size > addrs[i+1] {
 					problems = append(problems, "gcol/collections-overlap")
 				}
+				// the library's own heap reader (what its attribute and reference-file readers use)
+				// must return, for every object the independent decoder found, exactly those
+				// bytes — or an error for the whole collection
+				if len(g.problems) == 0 {
+					lib, err := core.ReadGlobalHeapCollection(f.osFile, a, int(f.sb.OffsetSize))
+					if err != nil {
+						detail["library_heap_reader_error"] = err.Error()
+						problems = append(problems, "library-heap-reader/error-on-well-formed-collection")
+					} else {
+						for idx, want := range g.objs {
+							if idx == 0 {
+								continue
+							}
+							ob, err := lib.GetObject(uint32(idx))
+							switch {
+							case err != nil:
+								detail["library_heap_reader_index"], detail["want_len"] = idx, len(want)
+								problems = append(problems, "library-heap-reader/object-not-found")
+							case string(ob.Data) != string(want):
+								detail["library_heap_reader_index"], detail["want_len"], detail["got_len"] = idx, len(want), len(ob.Data)
+								problems = append(problems, "library-heap-reader/object-bytes-differ")
+							}
+						}
+					}
+				}
 			}
 			detail["collections"] = len(cols)
 		}
